@@ -1466,7 +1466,7 @@ pub fn meta(m: &mut PropMeta) {
     m.explanation = "bounded-exhaustive enumeration of line histories x symbol sets on the real compiler, against a line-oriented reference preprocessor (stack of regions, define/undef state) written from the statement; plain index enumeration through the Family trait instead of stateright because the real preprocessor exposes no incremental state (the state is the line history)";
     m.quick_bound = "all sequences of length <= 5 and all well-nested sequences of length 6, x 8 symbol sets; expression trees depth <= 3, token strings <= 5 tokens; layouts on all sequences <= 2 lines; nesting depth 5; pairs of files <= 2 items, triples <= 1 item";
     m.thorough_bound = "all sequences of length <= 6 and all well-nested sequences of length 7, x 8 symbol sets; all well-nested sequences of length 8 x the 4 subsets of {A,B}; expression trees depth <= 4, token strings <= 6 tokens; layouts on all sequences <= 3 lines; nesting depth 6; pairs of files <= 3 items, triples <= 2 items";
-    m.quick_cap_s = 60.0;
+    m.quick_cap_s = 120.0;
     m.thorough_cap_s = 900.0;
 }
 
